@@ -240,7 +240,7 @@ func runC16(res *Result, d *Driver, g *Rng, tier string) {
 		res.Eval(op, n > 0)
 		long := false
 		for _, e := range l {
-			if len(e.val) > 65531 {
+			if len(e.val) > 65535 { // 65532..65535 still fit the length field and must come back
 				long = true
 			}
 		}
@@ -355,6 +355,12 @@ func runC16(res *Result, d *Driver, g *Rng, tier string) {
 		arb = append(arb, append([]byte(nil), m...))
 		arb = append(arb, append(append([]byte(nil), m...), g.Bytes(1+g.Intn(3))...))
 		arb = append(arb, append([]byte(nil), m[:len(m)-1]...))
+	}
+	// headers announcing the longest values (where tag+length+value arithmetic leaves 16 bits), alone and with a short tail
+	for _, ln := range []int{0xfffa, 0xfffb, 0xfffc, 0xfffd, 0xfffe, 0xffff, 0x8000, 0x7fff} {
+		h := []byte{0, 3, byte(ln >> 8), byte(ln)}
+		arb = append(arb, h, append(append([]byte(nil), h...), g.Bytes(1+g.Intn(9))...))
+		arb = append(arb, append([]byte{0, 5, 0, 1, 7}, h...))
 	}
 	for i, b := range arb {
 		op := "tlv read " + hx(b)
